@@ -322,10 +322,15 @@ def run_obligation(ob, scratch, tier, kf_defines, prop=None):
         return res
     # callees replaced by contract stubs (route H): remove the real body, link the stub translation unit
     for fname, stubfile in ob.get("replace_bodies", []):
-        rc, out, err = sh(["goto-instrument", "--remove-function-body", fname, "a.gb", "a_nb.gb"], wd, 120, 4, log)
+        fnames = [fname] if isinstance(fname, str) else list(fname)     # several callees may share one stub translation unit
+        rmflags = []
+        for f_ in fnames:
+            rmflags += ["--remove-function-body", f_]
+        rc, out, err = sh(["goto-instrument"] + rmflags + ["a.gb", "a_nb.gb"], wd, 120, 4, log)
         if rc != 0:
-            res["reason"] = "goto-instrument --remove-function-body %s failed: %s" % (fname, (err or out)[-600:])
+            res["reason"] = "goto-instrument --remove-function-body %s failed: %s" % (fnames, (err or out)[-600:])
             return res
+        fname = fnames[0]
         sgb = "stub_%s.gb" % fname
         rc, out, err = sh(["goto-cc"] + inc + dflags + ["-c", os.path.join(VERIF, "stubs", stubfile), "-o", sgb], wd, 120, 4, log)
         if rc != 0:
